@@ -54,7 +54,7 @@ def oracle_step(tup, s, toks):
                 out.append(("other-table-touched", "get_id changed a table of another space"))
             if enumerable and len(pre_in) < size:
                 if dropped or kind != "ID" or rid in pre_ids:
-                    out.append(("displaced-while-free", f"a free id existed ({len(pre_in)} of {size} used) but rows {dropped[:3]} were displaced"))
+                    out.append(("displaced-while-free", f"a free id existed ({len(pre_in)} of {size} used) but rows {dropped[:3]} were displaced (get_id: {kind} {rid})"))
             elif enumerable:
                 if kind != "ID" or len(dropped) != 1 or dropped[0][0] != rid:
                     out.append(("full-recycle-not-exactly-one", f"full subspace: dropped {dropped[:4]}, result {s['result']}"))
